@@ -9,17 +9,20 @@
 EXTENDS Naturals, Integers, Sequences, FiniteSets, TLC
 
 ----------------------------------------------------------------------------------------
-\* expressions
+\* expressions  (the payload field of a literal is named by its kind - v / s / b - so that records of different kinds never have a
+\* common field with values of different types: TLC cannot compare such values when it normalises a set of programs)
 IntL(n)      == [k |-> "int", v |-> n]
-FloatL(s)    == [k |-> "float", v |-> s]            \* lexeme, e.g. "1.5" (no float arithmetic in the value-level core)
-StrL(s)      == [k |-> "str", v |-> s]
-BoolL(b)     == [k |-> "bool", v |-> b]
+FloatL(s)    == [k |-> "float", s |-> s]            \* lexeme, e.g. "1.5" (no float arithmetic in the value-level core)
+StrL(s)      == [k |-> "str", s |-> s]
+BoolL(b)     == [k |-> "bool", b |-> b]
 NoneL        == [k |-> "none"]
 Var(n)       == [k |-> "var", n |-> n]
 Bin(op,l,r)  == [k |-> "bin", op |-> op, l |-> l, r |-> r]   \* + - * // mod ^ < <= > >= = and or
 Not(e)       == [k |-> "not", e |-> e]
 Neg(e)       == [k |-> "neg", e |-> e]
 IfE(c,t,e)   == [k |-> "ife", c |-> c, t |-> t, e |-> e]
+Lam(ps,e)    == [k |-> "lam", ps |-> ps, e |-> e]                                  \* \x: T, y: U => e   (ps: parameters as in Fun; an anonymous function value)
+IfEB(c,t,e)  == [k |-> "ife", c |-> c, t |-> t, e |-> e, blk |-> TRUE]             \* the same expression written in block form (only as the right-hand side of a definition)
 Call(f,a)    == [k |-> "call", f |-> f, args |-> a]
 MCall(o,m,a) == [k |-> "mcall", o |-> o, m |-> m, args |-> a]
 Field(o,n)   == [k |-> "field", o |-> o, n |-> n]
@@ -53,6 +56,7 @@ Raise(c,a)       == [k |-> "raise", c |-> c, args |-> a]
 HArm(c,n,b)      == [c |-> c, n |-> n, b |-> b]                                 \* n: binder or "_"
 Handle(s,arms)   == [k |-> "handle", s |-> s, arms |-> arms]                    \* s: Def(..) or Expr(..)
 Pass             == [k |-> "pass"]
+With(r,a,ty,b)   == [k |-> "with", r |-> r, a |-> a, ty |-> ty, b |-> b]                 \* with r [as a[: ty]] do b   (a = "" : no alias)
 Param(n,ty,d)    == [n |-> n, ty |-> ty, d |-> d]                               \* d: default expression or Absent
 Fun(n,ps,ret,rs,b) == [k |-> "fun", n |-> n, ps |-> ps, ret |-> ret, raises |-> rs, b |-> b]
 CArg(n,isdef,mut,ty,d) == [n |-> n, isdef |-> isdef, mut |-> mut, ty |-> ty, d |-> d]
